@@ -80,10 +80,10 @@ func RaftChild(cfg RaftRun, outPath, scratch string) {
 	ports := FreePorts(2*cfg.NS + cfg.NC)
 	root := configs.Root{
 		NumServers: cfg.NS, NumClients: cfg.NC, Persist: cfg.Persist,
-		ClientRequestTimeout: cfg.ReqTimeout * sc,
-		FD:                   configs.FD{PullInterval: 100 * time.Millisecond * sc, Timeout: 50 * time.Millisecond * sc},
-		Mailboxes:            configs.Mailboxes{ReceiveChanSize: 10000, DialTimeout: 100 * time.Millisecond * sc, ReadTimeout: 100 * time.Millisecond * sc, WriteTimeout: 100 * time.Millisecond * sc},
-		LeaderElection:       configs.LeaderElection{Timeout: 150 * time.Millisecond * sc, TimeoutOffset: 150 * time.Millisecond * sc},
+		ClientRequestTimeout:      cfg.ReqTimeout * sc,
+		FD:                        configs.FD{PullInterval: 100 * time.Millisecond * sc, Timeout: 50 * time.Millisecond * sc},
+		Mailboxes:                 configs.Mailboxes{ReceiveChanSize: 10000, DialTimeout: 100 * time.Millisecond * sc, ReadTimeout: 100 * time.Millisecond * sc, WriteTimeout: 100 * time.Millisecond * sc},
+		LeaderElection:            configs.LeaderElection{Timeout: 150 * time.Millisecond * sc, TimeoutOffset: 150 * time.Millisecond * sc},
 		AppendEntriesSendInterval: 5 * time.Millisecond * sc,
 		SharedResourceTimeout:     3 * time.Millisecond * sc,
 		InputChanReadTimeout:      5 * time.Millisecond * sc,
